@@ -17,6 +17,11 @@ r = subprocess.run(["git", "-C", REPO, "apply", patch])
 if r.returncode != 0:
     print("patch does not apply")
     sys.exit(2)
+import shutil
+import tempfile
+_evbak = tempfile.mkdtemp(prefix="evbak")
+if os.path.isdir(os.path.join(VROOT, "evidence")):
+    shutil.copytree(os.path.join(VROOT, "evidence"), os.path.join(_evbak, "evidence"))
 try:
     for pid in pids:
         try:
@@ -28,5 +33,10 @@ try:
         except subprocess.TimeoutExpired:
             print("== %s TIMEOUT" % pid)
 finally:
+    # evidence written while a mutant was applied does not describe the real tree: put the old files back
+    if os.path.isdir(os.path.join(_evbak, "evidence")):
+        shutil.rmtree(os.path.join(VROOT, "evidence"), ignore_errors=True)
+        shutil.copytree(os.path.join(_evbak, "evidence"), os.path.join(VROOT, "evidence"))
+    shutil.rmtree(_evbak, ignore_errors=True)
     subprocess.run(["git", "-C", REPO, "checkout", "--", "."])
     subprocess.run(["git", "-C", REPO, "clean", "-fdq", "--", "ractor", "ractor_cluster"], check=False)
